@@ -31,6 +31,19 @@ def record_and_validate(c, tier, tag, what):
             c.violation("%s: the units the real encoders put on the wire are not a behaviour of the Wire design (first unmatched event %d: counter, ledger, grammar, limit or freshness rule)" %
                         (what, matched), {"trace": path, "tail": r.out[-1500:]})
     c.add("traces_validated_against_impl", ok)
+    # one connection that outlives its 16-bit chunk counter (VMess): counter rule for every unit, wrap to 0 at 65536
+    lr = vh_json_lines(["c12-long", "--seed", vlib.seed(), "--out", os.path.join(wd, "long"), "--chunks", 66000], timeout=3000)[-1]
+    for e in lr["errors"]:
+        c.violation("%s, long session: %s" % (what, e), {"error": e})
+    for path in lr["files"]:
+        acc, matched, r = validate_trace("TraceWire", "TraceWireLong.cfg", path, timeout=3000, heap="6g")
+        c.tlc_stats(r)
+        if acc:
+            c.add("traces_validated_against_impl", 1)
+            c.add("trace_events", matched)
+        else:
+            c.violation("%s: long VMess session: unit %d is not a behaviour of the Wire design (counter does not step by one / wrap at 65536)" % (what, matched), {"trace": path, "tail": r.out[-1500:]})
+    c.add("long_session_units", lr["units"])
     rows = open(files[0]).read().splitlines()
     c.sample({"trace_head": [json.loads(x) for x in rows[:6]]})
     return files
